@@ -37,8 +37,73 @@ RC_INV = [
 ]
 RC_INV_INNER = ["True"]
 RC_POST = [
+    # seeds keep their value
     "forall(c, old(broker.instances), c in broker.instances and broker.instances[c] == old(broker.instances)[c])",
+    # the attempt log (ghost results att / attpos): a strictly increasing sub-sequence of the given order, no seed in it
+    "len(att) == len(attpos)",
+    "forall(j, range(0, len(att)), 0 <= attpos[j] and attpos[j] < len(ordered_components) and att[j] == ordered_components[attpos[j]])",
+    "forall(a, range(0, len(att)), forall(b, range(0, len(att)), implies(a < b, attpos[a] < attpos[b])))",
+    "forall(j, range(0, len(att)), att[j] not in old(broker.instances))",
+    "forall(c, broker.instances, c in old(broker.instances) or (c in attidx and 0 <= attidx[c] and attidx[c] < len(att) and att[attidx[c]] == c))",
 ]
+
+
+# --- toposort ------------------------------------------------------------------------------------
+TS_INV0 = [
+    # loop over the items snapshot it_0 of the copy: processed keys lost their self-dependency, the rest is untouched
+    "keys(data) == keys(lold(data))",
+    "forall(j, range(0, i_0), data[it_0[j][0]] == remove(lold(data)[it_0[j][0]], it_0[j][0]))",
+    "forall(j, range(i_0, len(it_0)), data[it_0[j][0]] == it_0[j][1])",
+]
+TS_INV1 = [
+    # K = keys(data): not yet emitted; done: emitted; D0 = lold(data): the normalised graph at loop entry
+    "disjoint(keys(data), done)",
+    "union(keys(data), done) == keys(lold(data))",
+    "forall(x, data, data[x] == diff(lold(data)[x], done))",
+    "keys(lvl) == done",
+    "forall(x, done, 0 <= lvl[x] and lvl[x] < len(yields_) and x in yields_[lvl[x]])",
+    "forall(x, done, forall(d, lold(data)[x], d in done and lvl[d] < lvl[x]))",
+    "forall(j, range(0, len(yields_)), forall(x, yields_[j], x in done and lvl[x] == j))",
+    "forall(j, range(0, len(yields_)), not isempty(yields_[j]))",
+    # the normalised graph: no self-dependencies, closed under dependencies, same nodes as the argument
+    "forall(x, lold(data), x not in lold(data)[x] and subset(lold(data)[x], keys(lold(data))))",
+    "keys(lold(data)) == nodes(old(data))",
+    "forall(x, old(data), forall(d, old(data)[x], implies(d != x, d in lold(data)[x])))",
+]
+TS_POST = [
+    # `result` is the list of yielded levels; lvl is the level function (ghost out-parameter)
+    "forall(j, range(0, len(result)), not isempty(result[j]))",
+    "forall(j, range(0, len(result)), forall(x, result[j], x in lvl and lvl[x] == j))",
+    "forall(x, lvl, 0 <= lvl[x] and lvl[x] < len(result) and x in result[lvl[x]])",
+    # every node of the graph is in some level, and nothing else
+    "keys(lvl) == nodes(old(data))",
+    # dependencies (other than on itself) are in strictly earlier levels
+    "forall(x, old(data), forall(d, old(data)[x], implies(d != x, d in lvl and lvl[d] < lvl[x])))",
+]
+
+
+TF_INV = [
+    # result = concatenation of enumerations of the levels it_0[:i_0]   (toposort_lvl: level function of the callee)
+    "forall(a, range(0, len(result)), result[a] in toposort_lvl and toposort_lvl[result[a]] < i_0)",
+    "forall(a, range(0, len(result)), forall(b, range(0, len(result)), implies(a < b, toposort_lvl[result[a]] <= toposort_lvl[result[b]])))",
+    "distinct(result)",
+    "forall(x, toposort_lvl, implies(toposort_lvl[x] < i_0, exists(a, range(0, len(result)), result[a] == x)))",
+]
+# what callers of run_order use: a duplicate-free list of exactly the graph's nodes in which every dependency
+# (other than on itself) precedes its dependent
+RO_POST = [
+    "forall(a, range(0, len(result)), forall(b, range(0, len(result)), "
+    "  implies(result[a] in old(graph) and result[b] in old(graph)[result[a]] and result[a] != result[b], b < a)))",
+]
+TF_POST = [
+    "distinct(result)",
+    "forall(a, range(0, len(result)), result[a] in nodes(old(data)))",
+    "forall(x, nodes(old(data)), exists(a, range(0, len(result)), result[a] == x))",
+    "keys(lvl) == nodes(old(data))",
+    "forall(a, range(0, len(result)), forall(b, range(0, len(result)), implies(a < b, lvl[result[a]] <= lvl[result[b]])))",
+    "forall(x, old(data), forall(d, old(data)[x], implies(d != x, d in lvl and lvl[d] < lvl[x])))",
+]
+TF_POST_GRAPH = [t.replace("old(data)", "old(graph)") for t in TF_POST]
 
 
 def declare(reg):
@@ -157,3 +222,28 @@ def declare(reg):
                  loops={0: RC_INV, 1: ["True"], 2: RC_INV_INNER},
                  raises={},
                  ensures=["result == broker"] + RC_POST)
+
+    # ------------------------------------------------------------------ toposort (insights/contrib/toposort.py)
+    reg.specfun("nodes", dict(g=Map(Comp, Set(Comp))), Set(Comp), None)
+    reg.axiom("forall(g, GraphT, forall(x, Comp, (x in nodes(g)) == (x in g or exists(k, g, x in g[k]))))")
+    reg.sort(GraphT=Map(Comp, Set(Comp)))
+    reg.contract(TS, "toposort", params=dict(data=Map(Comp, Set(Comp))), yields=Set(Comp),
+                 empties=dict(set=Set(Comp)),
+                 ghosts=dict(done=(Set(Comp), "set()"), lvl=(Map(Comp, INT), "{}")),
+                 locals=dict(done=Set(Comp), lvl=Map(Comp, INT)),
+                 ghost_on=[("yield ordered", "lvl = store_all(lvl, ordered, len(yields_)); done = done | ordered", "before")],
+                 loops={0: TS_INV0, 1: TS_INV1},
+                 raises={"ValueError": None},
+                 ensures=TS_POST,
+                 note="shallow-copy aliasing is not modelled: the in-place removal of self-dependencies from the caller's "
+                      "sets (data.copy() shares the inner sets) is outside the encoding")
+
+    reg.contract(TS, "toposort_flatten", params=dict(data=Map(Comp, Set(Comp)), sort=BOOL), returns=List(Comp),
+                 locals=dict(result=List(Comp)),
+                 loops={0: TF_INV},
+                 raises={"ValueError": None},
+                 ghost_final=dict(lvl=(Map(Comp, INT), "toposort_lvl")),
+                 ensures=TF_POST)
+    reg.contract(M, "run_order", params=dict(graph=Map(Comp, Set(Comp))), returns=List(Comp),
+                 raises={"ValueError": None},
+                 ensures=[t for t in TF_POST_GRAPH if "lvl" not in t] + RO_POST)
